@@ -5,7 +5,7 @@ letter=$1; prefix=$2; shift 2
 cd "$(dirname "$(readlink -f "$0")")/.."
 scratch=/tmp/wt_seedtest
 if [ ! -d $scratch ]; then git -C /repo worktree add -q --detach $scratch HEAD || exit 3; fi
-git -C $scratch checkout -q --detach "$(git -C /repo rev-parse HEAD)"; git -C $scratch checkout -q -- .
+git -C $scratch checkout -q -- .; git -C $scratch checkout -q --detach "$(git -C /repo rev-parse HEAD)" || exit 3
 for i in "$@"; do
   d=$prefix$i/seeded_out
   if [ ! -f $d/patch.diff ]; then echo "C$i-$letter: no patch yet"; continue; fi
